@@ -64,6 +64,21 @@ def cases(tier, seed):
                 for i in range(0, len(ops) - 3, 400):
                     cs.append(Case("r%d-%d" % (n, i), ops[:3] + ops[3 + i:3 + i + 400], ("block-read",)))
                 n += 1
+    # the top of the address space: the last area ends at 0xffffffff (exclusive), requests reach and cross 2^32
+    TOP = 2 ** 32
+    for be in (0, 1):
+        ents = "u16:%d:0101:t|u32:%d:a1a2a3a4:t|u64:%d:1122334455667788:t|u16:%d:0202:t" % (TOP - 17, TOP - 14, TOP - 9, TOP - 2)
+        ops = ["rt.table %d %d:6:rw:M|%d:16:rw:M %s" % (be, TOP - 30, TOP - 17, "u16:%d:0909:t|" % (TOP - 28) + ents), "rt.init",
+               "rt.bwrite %d 00a100a200a300a4" % (TOP - 17)]
+        for a in range(TOP - 32, TOP):
+            for ln in (0, 1, 2, 3, 5, 8, TOP - a - 1, TOP - a, TOP - a + 1, TOP - a + 7, 2 ** 31, 2 ** 32 - 1):
+                ops.append("rt.bread %d %d" % (a, min(ln, 40)))
+                script = rnd.choice(["-", "-", "0,1", "0,-1"])
+                ops.append("rt.foreach %d %d %s" % (a, ln, script))
+            ops.append("rt.hole %d %d" % (a, rnd.choice([1, TOP - a, TOP - a + 3])))
+        ops += ["rt.foreach 0 %d -" % (TOP - 1), "rt.foreach %d %d -" % (TOP - 1, TOP - 1), "rt.foreach 1 %d -" % (TOP - 1)]
+        for i in range(0, len(ops) - 3, 400):
+            cs.append(Case("top-%d-%d" % (be, i), ops[:3] + ops[3 + i:3 + i + 400], ("top-of-address-space",)))
     cs.append(Case("empty-table", ["rt.table 0 16:4:rw:M -", "rt.init", "rt.foreach 16 4 -", "rt.bread 16 4", "rt.foreach 0 100 -"], ("empty",)))
     cs.append(Case("uninit", ["rt.table 0 16:4:rw:M u16:16:0001:t", "rt.bread 16 1", "rt.bread 16 0", "rt.foreach 16 1 -"], ("uninit",)))
     return cs
